@@ -52,24 +52,46 @@ type request struct {
 	qp         proxycore.QueryPlan
 	frm        interface{}
 	isSelect   bool            // Only used for prepared statements currently
-	reprepared *proxycore.Host // The host the request has already been re-executed on after a re-prepare
+	reprepared *proxycore.Host // The host the request has been re-executed on after a re-prepare
+	reprepares int             // The number of re-executions after a re-prepare on that host
 	mu         sync.Mutex
 }
 
 func (r *request) Execute(next bool) {
 	r.mu.Lock()
 	if !next {
-		// Re-execution on the current host after the statement was re-prepared there. Only do this once per host,
-		// otherwise a host that keeps answering "unprepared" after a successful re-prepare would bounce the request
-		// between PREPARE and EXECUTE forever and the client would never get a response.
-		if r.reprepared == r.host {
+		// Re-execution on the current host after a statement was re-prepared there. Only do this once per host and
+		// prepared statement of the request, otherwise a host that keeps answering "unprepared" after a successful
+		// re-prepare would bounce the request between PREPARE and EXECUTE forever and the client would never get a
+		// response.
+		if r.reprepared != r.host {
+			r.reprepared, r.reprepares = r.host, 0
+		}
+		if r.reprepares >= r.preparedStatements() {
 			next = true
 		} else {
-			r.reprepared = r.host
+			r.reprepares++
 		}
 	}
 	r.executeInternal(next)
 	r.mu.Unlock()
+}
+
+// preparedStatements is the number of prepared statements the request refers to: one for an `EXECUTE`, the number of
+// children that are given by ID for a `BATCH`. Each of them can be missing on a host.
+func (r *request) preparedStatements() int {
+	count := 0
+	if batch, ok := r.msg.(*codecs.PartialBatch); ok {
+		for _, query := range batch.Queries {
+			if _, isId := query.QueryOrId.([]byte); isId {
+				count++
+			}
+		}
+	}
+	if count == 0 {
+		count = 1
+	}
+	return count
 }
 
 // lock before using
